@@ -670,3 +670,46 @@ func (w *World) infoOf(fn *ssa.Function) *types.Info {
 	}
 	return nil
 }
+
+// shareRule re-emits, under this property's own rule id, the obligations another property's run produced for one of
+// its rules (the donor's rule set is evaluated once per process on a scratch report and cached). A clause that is a
+// necessary condition of two properties is decided once and registered under both; the statement says where it lives.
+var donorCache = map[string]*Report{}
+var donorBuilding = map[string]bool{}
+
+func shareRule(w *World, r *Report, own, statement string, floor int, donorProp, donorRule string) {
+	if donorProp == r.Prop {
+		panic("shareRule: donor is the property itself")
+	}
+	d := donorCache[donorProp]
+	if d == nil && donorBuilding[donorProp] {
+		// a share requested from inside the donor's own scratch evaluation (two properties sharing from each other): the
+		// scratch report does not need it
+		r.Rule(own, statement+" (shared: decided by "+donorRule+")", 0)
+		return
+	}
+	if d == nil {
+		donorBuilding[donorProp] = true
+		defer func() { donorBuilding[donorProp] = false }()
+		d = newReport(w, donorProp, r.Tier)
+		func() {
+			defer func() {
+				if e := recover(); e != nil {
+					if u, ok := e.(undecided); ok {
+						undecidedf("%s (shared from %s): %s", own, donorRule, u.msg)
+					}
+					panic(e)
+				}
+			}()
+			props[donorProp].run(w, d)
+		}()
+		donorCache[donorProp] = d
+	}
+	r.Rule(own, statement+" (shared: decided by "+donorRule+")", floor)
+	for _, ob := range d.Obs {
+		if ob.Rule != donorRule {
+			continue
+		}
+		r.Obs = append(r.Obs, Ob{Rule: own, Construct: ob.Construct, Pos: ob.Pos, Status: ob.Status, Detail: ob.Detail})
+	}
+}
